@@ -1,5 +1,149 @@
-"""SQLAlchemy grouping model: correspondence + instance theorem (filled in below)."""
+"""SQLAlchemy grouping model (Model/SaGroup.v): the precedence table and the natural-self-precedent set
+are read from the installed library, the instance theorem K_sa T = true is checked by Coq, and the
+text the real renderer produces for generated expression trees is compared with the model's text."""
+import random
+import re
+import warnings
+
+from common import GEN, BrokenTie, compile_gen, coq_eval_lists, parse_coq_list, write_if_changed
+
+KINDS = ['KAdd', 'KSub', 'KMul', 'KNeg', 'KCmp', 'KBetween', 'KInv', 'KAnd', 'KOr']
+CMPS = {'=': 'CEq', '!=': 'CNe', '<': 'CLt', '<=': 'CLe', '>': 'CGt', '>=': 'CGe'}
+ATOMS = ['a', 'b', 'c', 'd']
+
+
+def sa_table():
+    from sqlalchemy.sql import operators as O
+    ops = {'KAdd': O.add, 'KSub': O.sub, 'KMul': O.mul, 'KNeg': O.neg, 'KCmp': O.eq, 'KBetween': O.between_op, 'KInv': O.inv,
+           'KAnd': O.and_, 'KOr': O.or_}
+    prec, nat = {}, {}
+    for k, op in ops.items():
+        if op not in O._PRECEDENCE:
+            raise BrokenTie(f'sqlalchemy.sql.operators._PRECEDENCE has no entry for {op.__name__}')
+        prec[k] = int(O._PRECEDENCE[op])
+        nat[k] = bool(O.is_natural_self_precedent(op))
+    # every comparison operator the model folds into KCmp must have the precedence of eq
+    for op in (O.ne, O.lt, O.le, O.gt, O.ge):
+        if O._PRECEDENCE.get(op) != O._PRECEDENCE[O.eq]:
+            raise BrokenTie(f'comparison operator {op.__name__} has a precedence of its own')
+    if O._PRECEDENCE.get(O.not_between_op) != O._PRECEDENCE[O.between_op]:
+        raise BrokenTie('not_between_op has a precedence of its own')
+    return prec, nat
+
+
+def gen(rng, d=0, boolean=None):
+    if boolean is None:
+        boolean = rng.random() < 0.5
+    if boolean:
+        r = rng.random()
+        if d < 3 and r < 0.3:
+            return ('log', rng.choice(['and', 'or']), gen(rng, d + 1, True), gen(rng, d + 1, True))
+        if d < 3 and r < 0.45:
+            x = gen(rng, d + 1, True)
+            return ('not', x) if x[0] != 'not' else x
+        if r < 0.6:
+            return ('btw', gen(rng, d + 1, False), gen(rng, d + 2, False), gen(rng, d + 2, False))
+        if d < 2 and r < 0.68:
+            return ('cmp', rng.choice(list(CMPS)), gen(rng, d + 1, True), gen(rng, d + 1, True))
+        return ('cmp', rng.choice(list(CMPS)), gen(rng, d + 1, False), gen(rng, d + 1, False))
+    r = rng.random()
+    if d < 3 and r < 0.5:
+        return ('arith', rng.choice(['+', '-', '*']), gen(rng, d + 1, False), gen(rng, d + 1, False))
+    if d < 3 and r < 0.6:
+        return ('neg', gen(rng, d + 1, False))
+    return ('atom', rng.choice(ATOMS))
+
+
+def text(e):
+    k = e[0]
+    if k == 'atom':
+        return e[1]
+    if k in ('arith', 'cmp', 'log'):
+        return f'({text(e[2])} {e[1]} {text(e[3])})'
+    if k == 'neg':
+        return f'(-{text(e[1])})'
+    if k == 'not':
+        return f'(not {text(e[1])})'
+    return f'({text(e[1])} between {text(e[2])} and {text(e[3])})'
+
+
+def term(e):
+    k = e[0]
+    if k == 'atom':
+        return f'(XAtom {ATOMS.index(e[1]) + 1})'
+    if k == 'arith':
+        return f'(XArith {dict(zip("+-*", ["AAdd", "ASub", "AMul"]))[e[1]]} {term(e[2])} {term(e[3])})'
+    if k == 'cmp':
+        return f'(XCmp {CMPS[e[1]]} {term(e[2])} {term(e[3])})'
+    if k == 'log':
+        return f'(XLog {"LAnd" if e[1] == "and" else "LOr"} {term(e[2])} {term(e[3])})'
+    if k == 'neg':
+        return f'(XNeg {term(e[1])})'
+    if k == 'not':
+        return f'(XNot {term(e[1])})'
+    return f'(XBtw {term(e[1])} {term(e[2])} {term(e[3])})'
+
+
+def is_bool(e):
+    return e[0] in ('cmp', 'log', 'not', 'btw')
+
+
+def nl(s):
+    return '[' + '; '.join(str(ord(c)) for c in s) + ']%N'
 
 
 def check(R, rng, tier):
-    return []
+    """-> list of BrokenTie; adds obligations to R"""
+    warnings.simplefilter('ignore')
+    from mindsdb_sql import parse_sql
+    from mindsdb_sql.render.sqlalchemy_render import SqlalchemyRender
+    broken = []
+    try:
+        prec, nat = sa_table()
+    except BrokenTie as e:
+        R.obligation('SQLAlchemy precedence table read', False)
+        return [e]
+    tdef = ('Definition T : satable := mkSA (fun k => match k with ' +
+            ' | '.join(f'{k} => {prec[k]}%nat' for k in KINDS) + ' end) (fun k => match k with ' +
+            ' | '.join(f'{k} => {"true" if nat[k] else "false"}' for k in KINDS) + ' end).')
+    rows = []
+    n = 400 if tier == 'quick' else 6000
+    for _ in range(n):
+        e = gen(rng)
+        sql = f'select * from t where {text(e)}' if is_bool(e) else f'select {text(e)} as x from t'
+        outs = {}
+        for d in ('postgres', 'sqlite'):
+            try:
+                out = ' '.join(SqlalchemyRender(d).get_string(parse_sql(sql, 'mindsdb'), with_failback=False).split())
+                outs[d] = out[len('SELECT * FROM t WHERE '):] if is_bool(e) else out[len('SELECT '):-len(' AS x FROM t')]
+            except Exception as ex:
+                outs[d] = f'<{type(ex).__name__}>'
+        rows.append((e, sql, outs))
+    lines = ['From Coq Require Import NArith PArith List Bool.', 'From MSV Require Import Lib.PyStr Model.SaGroup Model.SaGroupCorr.',
+             'Import ListNotations.', tdef,
+             'Theorem sa_table_ok : K_sa T = true.', 'Proof. vm_cast_no_check (eq_refl true). Qed.',
+             'Definition atom (n : positive) : str := match n with 1%positive => [97]%N | 2%positive => [98]%N | 3%positive => [99]%N | _ => [100]%N end.',
+             'Definition cases : list (sex * str * str) := [',
+             ';\n'.join(f' ({term(e)}, {nl(o["postgres"])}, {nl(o["sqlite"])})' for e, _, o in rows), '].',
+             'Definition bad {A} (f : A -> bool) (l : list A) : list nat :=',
+             '  (fix go (i : nat) (l : list A) := match l with [] => [] | x :: r => if f x then go (S i) r else i :: go (S i) r end) O l.',
+             "Eval vm_compute in bad (fun c => let '(e, a, b) := c in ostr_eqb (render T atom e) a && ostr_eqb (render T atom e) b) cases.",
+             "Eval vm_compute in bad (fun c => let '(e, a, b) := c in bounds_arith e) cases."]
+    write_if_changed(GEN / 'C06_sa.v', '\n'.join(lines) + '\n')
+    rc, out = compile_gen('C06_sa')
+    if rc != 0:
+        ok_inst = 'sa_table_ok' not in out and 'K_sa' not in out
+        R.obligation('K_sa T = true for the precedence table of the installed SQLAlchemy (instance of C06_printed_is_unambiguous)', False)
+        # which pair of kinds breaks the condition: evaluate in python
+        detail = {'precedence': prec, 'natural_self_precedent': nat, 'coq': out[-800:]}
+        return [BrokenTie('the precedence table of the installed SQLAlchemy does not satisfy K_sa, or the case file does not compile', str(detail))]
+    R.obligation('K_sa T = true for the precedence table of the installed SQLAlchemy (instance of C06_printed_is_unambiguous)', True)
+    vals = coq_eval_lists(out)
+    bad = parse_coq_list(vals[-2])
+    unguarded = parse_coq_list(vals[-1])
+    R.obligation(f'text of generated expression trees: real renderer (postgres, sqlite) = Model/SaGroup on {len(rows)} trees', not bad)
+    R.notes['sa_trees'] = {'trees': len(rows), 'with_non_arithmetic_between_bounds': len(unguarded), 'precedence': prec, 'natural': nat}
+    if bad:
+        e, sql, outs = rows[bad[0]]
+        broken.append(BrokenTie(f'model of SQLAlchemy grouping disagrees with the renderer on `{sql}`', str(outs)))
+    return broken
